@@ -31,6 +31,14 @@ impl Kanata {
             }
         }
         self.cur_keys.extend(self.layout.bm().keycodes());
+        // Build the key list the same way as when keys are pressed, so that the global overrides
+        // also see (and replace) the keys of active unmod/unshift actions.
+        apply_unmod_unshift_keys(
+            &mut self.cur_keys,
+            &self.unmodded_keys,
+            self.unmodded_mods,
+            &self.unshifted_keys,
+        );
         self.overrides
             .override_keys(&mut self.cur_keys, &mut self.override_states);
 
@@ -43,10 +51,7 @@ impl Kanata {
                 log::debug!("key outs for active layer-while-held: {outputs_for_key:?};");
                 for osc in outputs_for_key.iter().rev().copied() {
                     let kc = osc.into();
-                    if self.cur_keys.contains(&kc)
-                        || self.unshifted_keys.contains(&kc)
-                        || self.unmodded_keys.contains(&kc)
-                    {
+                    if self.cur_keys.contains(&kc) {
                         log::debug!("repeat    {:?}", KeyCode::from(osc));
                         if let Err(e) = write_key(&mut self.kbd_out, osc, KeyValue::Repeat) {
                             bail!("could not write key {e:?}")
@@ -72,10 +77,7 @@ impl Kanata {
             log::debug!("key outs for default layer: {outputs_for_key:?};");
             for osc in outputs_for_key.iter().rev().copied() {
                 let kc = osc.into();
-                if self.cur_keys.contains(&kc)
-                    || self.unshifted_keys.contains(&kc)
-                    || self.unmodded_keys.contains(&kc)
-                {
+                if self.cur_keys.contains(&kc) {
                     log::debug!("repeat    {:?}", KeyCode::from(osc));
                     if let Err(e) = write_key(&mut self.kbd_out, osc, KeyValue::Repeat) {
                         bail!("could not write key {e:?}")
@@ -90,10 +92,7 @@ impl Kanata {
         // and have delegated to defsrc handling.
         log::debug!("checking defsrc output");
         let kc = event.code.into();
-        if self.cur_keys.contains(&kc)
-            || self.unshifted_keys.contains(&kc)
-            || self.unmodded_keys.contains(&kc)
-        {
+        if self.cur_keys.contains(&kc) {
             if let Err(e) = write_key(&mut self.kbd_out, event.code, KeyValue::Repeat) {
                 bail!("could not write key {e:?}");
             }
